@@ -67,6 +67,17 @@ func (o *overlayer) overlayField(base, overlay reflect.Value) error {
 			//  we're done here
 			return nil
 		}
+		if base.Type().Elem().Kind() != reflect.Struct {
+			// both pointers are non-nil, and it's a user-declared
+			// pointer to a non-struct: there's nothing to merge, the
+			// (already deep-copied) overlay replaces the base.
+			if !overlay.Type().AssignableTo(base.Type()) {
+				return fmt.Errorf("type %s is not assignable to %s",
+					overlay.Type(), base.Type())
+			}
+			base.Set(overlay)
+			return nil
+		}
 		// both pointers are non-nil, and it's a pointerified struct.
 		return o.overlayStruct(base.Elem(), overlay.Elem())
 	case reflect.Interface:
